@@ -19,7 +19,7 @@ ASSUMPTIONS = [
     "libsecp256k1 runs unsanitised; GNU readline is replaced by the simulated user",
 ]
 TIERS = {
-    "quick": {"cases": 6000, "flavours": ("asan",), "cap_s": 600},
+    "quick": {"cases": 8000, "flavours": ("asan",), "cap_s": 600},
     "thorough": {"cases": 250000, "flavours": ("asan",), "cap_s": 3 * 3600},
 }
 SHRINK_LISTS = ["walk", "stack", "faults"]
